@@ -416,7 +416,23 @@ class Evaluator:
             test, a, b = alt
             return Seq([AltItems(test, self.sequence(a, depth + 1).items, self.sequence(b, depth + 1).items)])
         at = self.node_of(e)
-        defs = [d for d in self.rd.defs_reaching(at, e.id)]
+
+        def root_defs(node, seen=None):
+            """definitions that bind the name, looking through `name += ..` (an in-place extension, handled as a mutation below)"""
+            seen = set() if seen is None else seen
+            out = set()
+            for d in self.rd.defs_reaching(node, e.id):
+                if d in seen:
+                    continue
+                seen.add(d)
+                st_ = self.g.stmt[d]
+                if isinstance(st_, ast.AugAssign) and isinstance(st_.target, ast.Name) and isinstance(st_.op, ast.Add):
+                    out |= root_defs(d, seen)
+                else:
+                    out.add(d)
+            return out
+
+        defs = sorted(root_defs(at))
         if len(defs) != 1 or defs[0] == self.g.entry:
             raise NotInterpretable(f"list {e.id} has {len(defs)} definitions")
         st = self.g.stmt[defs[0]]
@@ -441,7 +457,7 @@ class Evaluator:
                 mn = self.node_of(m) if not isinstance(m, ast.stmt) else self.g.node_of(m)
             except KeyError:
                 continue
-            if mn is None or defs[0] not in self.rd.defs_reaching(mn, e.id):
+            if mn is None or defs[0] not in root_defs(mn):
                 continue
             if m.lineno > e.lineno and not self._loops_between(m, e) and not any(isinstance(s, (ast.For, ast.While)) for s in self._enclosing(e)):
                 continue   # after the use
